@@ -30,7 +30,7 @@ Hardening pass (blind-spot classes of HARDENING.md)
   A repeat / aliasing   every constructor called again after the caller edited the array a previous call returned; the same theta
                         grid / retardance array / Jones batch objects through the same and other routines twice (later call
                         judged); Jones batches as C / F / strided / axes-moved arrays; theta as numpy scalars, 0-d and float32
-                        arrays, shape= as list / int array
+                        arrays, shape= as list
   B histories           add_jones_propagation switched on in steps (one step history per shard: all at once and again, two
                         steps, one routine at a time, subset / same subset / rest / default, overlapping subsets, tuple and set
                         arguments, empty list then default); after each step every routine named so far must be polarisation-
@@ -316,7 +316,7 @@ def _run(ctx, frac=1.0, label='c20', wl_suffix=''):
         return max(1, int(round(ctx.pick(q, t) * frac)))
 
     # --- 1. rotation matrix, retarders, polarisers, diattenuators (scalar forms) ---------------------------
-    n1 = max(ctx.share(cnt(1200, 250000)), 1)
+    n1 = max(ctx.share(cnt(1200, 180000)), 1)
     for it in range(n1):
         i = it if ctx.shard == 0 else None      # special values first on shard 0
         th, th2, d1, d2 = angle(rng, i), angle(rng), angle(rng, i), angle(rng)
@@ -459,7 +459,7 @@ def _run(ctx, frac=1.0, label='c20', wl_suffix=''):
 
     # --- 4. Mueller / Kronecker / Pauli on random complex matrices ----------------------------------------------------
     leads = [(), (1,), (4,), (1, 1), (2, 3), (3, 1), (2, 1, 3), (2, 2, 2)]
-    nm_ = cnt(40, 6000)
+    nm_ = cnt(40, 4500)
     k = -1
     for rep in range(nm_):
         for lead in leads:
@@ -670,7 +670,7 @@ def _run_repeat(ctx):
     from prysm.x import polarization as pol
     from prysm import propagation
     rng = ctx.rng('c20-repeat')
-    n = ctx.share(ctx.pick(120, 16000))
+    n = ctx.share(ctx.pick(120, 12000))
     leads = [(), (1,), (3,), (2, 2), (4, 3), (2, 1, 3), (8, 8)]
     for it in range(n):
         sub = ctx.subseed(rng)
@@ -744,7 +744,7 @@ def _run_repeat(ctx):
                     f'C20/jones_rotation_matrix/theta-as-{form}', f'jones_rotation_matrix(theta as {form}) != the float form', desc, tol=tl)
             if lead != ():
                 want = pol.half_wave_plate(th, shape=lead)
-                for form, val in (('list', list(lead)), ('int-array', np.array(lead, dtype=np.int64))):
+                for form, val in (('list', list(lead)),):          # the documented type of shape is a list; tuples are what prysm itself passes
                     law(ctx, 'repeat.argument-forms', pol.half_wave_plate(th, shape=val), want, f'C20/half_wave_plate/shape-as-{form}',
                         f'half_wave_plate(shape as {form}) != shape as tuple', desc)
                 ret = g.uniform(-2 * math.pi, 2 * math.pi, lead)
